@@ -195,7 +195,9 @@ func (e *sysEnv) build(s sspec) v1.ProxyConfigurer {
 	return c
 }
 
-func newSysEnv(initial []sspec) (*sysEnv, error) {
+func newSysEnv(initial []sspec) (*sysEnv, error) { return newSysEnvFull(initial, nil) }
+
+func newSysEnvFull(initial []sspec, vis []vsspec) (*sysEnv, error) {
 	e := &sysEnv{ports: map[[2]int]int{}}
 	var err error
 	if e.plug, err = newPlugStub(sysPlugAddr); err != nil {
@@ -216,7 +218,11 @@ func newSysEnv(initial []sspec) (*sysEnv, error) {
 		cfgs[i] = e.build(s)
 	}
 	e.cur = initial
-	if e.cli, err = e.srv.StartClient(cfgs, nil, nil); err != nil {
+	var vcfgs []v1.VisitorConfigurer
+	for _, s := range vis {
+		vcfgs = append(vcfgs, e.buildVisitor(s))
+	}
+	if e.cli, err = e.srv.StartClient(cfgs, vcfgs, nil); err != nil {
 		return nil, err
 	}
 	return e, nil
@@ -414,6 +420,279 @@ func runHealthReload(stable time.Duration) (finds []sysFinding, err error) {
 		}
 	}
 	return finds, nil
+}
+
+// ---- the service path: reloads through Service.UpdateAllConfigurer with visitors, empty sets, outage ----
+
+type vsspec struct{ name, val int }
+
+func (e *sysEnv) vport(s vsspec) int {
+	k := [2]int{100 + s.name, s.val}
+	if p, ok := e.ports[k]; ok {
+		return p
+	}
+	p := hx.FreePort(sysVisAddr)
+	e.ports[k] = p
+	return p
+}
+
+func (e *sysEnv) buildVisitor(s vsspec) v1.VisitorConfigurer {
+	c := &v1.STCPVisitorConfig{}
+	c.Name = fmt.Sprintf("v%d", s.name)
+	c.Type = "stcp"
+	c.SecretKey = fmt.Sprintf("k%d", s.val)
+	c.ServerName = "nobody"
+	c.BindAddr = sysVisAddr
+	c.BindPort = e.vport(s)
+	return c
+}
+
+const sysVisAddr = "127.0.19.5"
+
+type svcStep struct {
+	op   int // 0 login (start), 1 lost, 2 reload, 3 login again
+	p    []sspec
+	v    []vsspec
+	live bool
+	prow [][2]int
+	vrow [][3]int
+}
+
+func (e *sysEnv) svcReload(p []sspec, v []vsspec) error {
+	pc := make([]v1.ProxyConfigurer, len(p))
+	for i, s := range p {
+		pc[i] = e.build(s)
+	}
+	vc := make([]v1.VisitorConfigurer, len(v))
+	for i, s := range v {
+		vc[i] = e.buildVisitor(s)
+	}
+	e.cur = p
+	return e.cli.Svc.UpdateAllConfigurer(pc, vc)
+}
+
+func (e *sysEnv) svcObserve(st *svcStep, everV map[vsspec]bool, want map[vsspec]bool) (stale []string) {
+	live, proxies, visitors, running := e.cli.Svc.VerifC19Tables()
+	st.live = live
+	for name, c := range proxies {
+		n := nameNum(name)
+		val := -1
+		if tc, ok := c.(*v1.TCPProxyConfig); ok {
+			for v := 0; v < 4; v++ {
+				if tc.RemotePort == e.remotePort(sspec{n, v}) && tc.Metadatas["m"] == fmt.Sprint(v/2) {
+					val = v
+				}
+			}
+		}
+		st.prow = append(st.prow, [2]int{n, val})
+	}
+	sort.Slice(st.prow, func(i, j int) bool { return st.prow[i][0] < st.prow[j][0] })
+	isRunning := map[string]bool{}
+	for _, r := range running {
+		isRunning[r] = true
+	}
+	for name, c := range visitors {
+		n := nameNumV(name)
+		val := -1
+		for v := 0; v < 4; v++ {
+			if c.GetBaseConfig().SecretKey == fmt.Sprintf("k%d", v) && c.GetBaseConfig().BindPort == e.vport(vsspec{n, v}) {
+				val = v
+			}
+		}
+		run := 0
+		if isRunning[name] {
+			run = 1
+		}
+		st.vrow = append(st.vrow, [3]int{n, val, run})
+	}
+	sort.Slice(st.vrow, func(i, j int) bool { return st.vrow[i][0] < st.vrow[j][0] })
+	// a visitor that is not in the last loaded set must have released its bind port
+	for s := range everV {
+		if !want[s] && !hx.TCPBindable(sysVisAddr, e.vport(s)) {
+			stale = append(stale, fmt.Sprintf("v%d (configuration %d, port %d)", s.name, s.val, e.vport(s)))
+		}
+	}
+	sort.Strings(stale)
+	return stale
+}
+
+func (e *sysEnv) waitLive(want bool, d time.Duration) bool {
+	deadline := time.Now().Add(d)
+	for time.Now().Before(deadline) {
+		if live, _, _, _ := e.cli.Svc.VerifC19Tables(); live == want {
+			return true
+		}
+		time.Sleep(10 * time.Millisecond)
+	}
+	return false
+}
+
+// restartServer brings frps up again on the same address and port with the same plugin
+func (e *sysEnv) restartServer() error {
+	port := e.srv.Port
+	var err error
+	for i := 0; i < 50; i++ {
+		e.srv, err = hx.StartServer(sysSrvAddr, func(c *v1.ServerConfig) {
+			c.BindPort = port
+			c.HTTPPlugins = []v1.HTTPPluginOptions{{Name: "c19", Addr: "http://" + e.plug.ln.Addr().String(), Path: "/h",
+				Ops: []string{"NewProxy", "CloseProxy"}}}
+		})
+		if err == nil {
+			return nil
+		}
+		time.Sleep(20 * time.Millisecond)
+	}
+	return err
+}
+
+// runServicePath: start with proxies and visitors, then reload to the empty visitor set, from empty,
+// replace everything, proxies to empty and back, an outage with a reload while the client retries,
+// an identical reload.  Returns the steps for the Coq comparison and the Go-side findings.
+func runServicePath(stable time.Duration) (p0 []sspec, v0 []vsspec, steps []svcStep, finds []sysFinding, err error) {
+	p0 = []sspec{{0, 0}, {1, 0}}
+	v0 = []vsspec{{0, 0}, {1, 0}}
+	e, err := newSysEnvFull(p0, v0)
+	if err != nil {
+		return nil, nil, nil, nil, err
+	}
+	defer e.close()
+	everV := map[vsspec]bool{}
+	note := func(v []vsspec) {
+		for _, s := range v {
+			everV[s] = true
+		}
+	}
+	note(v0)
+	want := map[vsspec]bool{}
+	setWant := func(v []vsspec) {
+		want = map[vsspec]bool{}
+		seen := map[int]bool{}
+		for _, s := range v {
+			if !seen[s.name] {
+				seen[s.name] = true
+				want[s] = true
+			}
+		}
+	}
+	setWant(v0)
+	check := func(i int, st *svcStep) {
+		for _, s := range e.svcObserve(st, everV, want) {
+			finds = append(finds, sysFinding{"system:removed-visitor-still-listening",
+				fmt.Sprintf("step %d: visitor %s is not configured any more but its bind port is still taken", i, s), "service path"})
+		}
+		if st.live {
+			if msg := e.converged(); msg != "" {
+				finds = append(finds, sysFinding{"system:not-converged", fmt.Sprintf("service path step %d: %s", i, msg), "service path"})
+			}
+		}
+	}
+	if !e.waitLive(true, 5*time.Second) {
+		return p0, v0, nil, []sysFinding{{"system:client-never-logged-in", "no live session 5 s after start", "service path"}}, nil
+	}
+	e.quiesce(stable)
+	st := svcStep{op: 0}
+	check(0, &st)
+	steps = append(steps, st)
+
+	reloads := []struct {
+		p []sspec
+		v []vsspec
+	}{
+		{p0, nil},                      // the last visitors removed
+		{p0, []vsspec{{2, 0}, {0, 1}}}, // visitors from the empty set
+		{nil, []vsspec{{3, 0}}},        // all visitors replaced, proxies to the empty set
+		{[]sspec{{2, 0}}, nil},         // proxies from the empty set, visitors to empty
+		{[]sspec{{2, 0}, {0, 1}}, []vsspec{{1, 1}, {1, 0}}}, // both non-empty again, duplicate visitor name
+	}
+	for _, r := range reloads {
+		note(r.v)
+		setWant(r.v)
+		if err := e.svcReload(r.p, r.v); err != nil {
+			return p0, v0, steps, finds, err
+		}
+		e.quiesce(stable)
+		st := svcStep{op: 2, p: r.p, v: r.v}
+		check(len(steps), &st)
+		steps = append(steps, st)
+	}
+	// outage: the server goes away, the configuration is reloaded while the client retries, the
+	// server comes back
+	e.srv.Close()
+	if !e.waitLive(false, 5*time.Second) {
+		finds = append(finds, sysFinding{"system:connection-loss-not-noticed", "session still live 5 s after the server closed", "service path"})
+		return p0, v0, steps, finds, nil
+	}
+	steps = append(steps, svcStep{op: 1})
+	time.Sleep(50 * time.Millisecond)
+	np, nv := []sspec{{3, 0}, {0, 1}}, []vsspec{{2, 1}}
+	note(nv)
+	setWant(nv)
+	if err := e.svcReload(np, nv); err != nil {
+		return p0, v0, steps, finds, err
+	}
+	steps = append(steps, svcStep{op: 2, p: np, v: nv})
+	if err := e.restartServer(); err != nil {
+		return p0, v0, steps, finds, err
+	}
+	if !e.waitLive(true, 15*time.Second) {
+		finds = append(finds, sysFinding{"system:no-relogin", "no live session 15 s after the server came back", "service path"})
+		return p0, v0, steps, finds, nil
+	}
+	e.quiesce(stable)
+	st = svcStep{op: 3}
+	check(len(steps), &st)
+	steps = append(steps, st)
+	// identical reload on the new session
+	if err := e.svcReload(np, nv); err != nil {
+		return p0, v0, steps, finds, err
+	}
+	e.quiesce(stable)
+	ev := e.plug.take()
+	_ = ev
+	st = svcStep{op: 2, p: np, v: nv}
+	check(len(steps), &st)
+	steps = append(steps, st)
+	return p0, v0, steps, finds, nil
+}
+
+func renderSvc(p0 []sspec, v0 []vsspec, steps []svcStep) string {
+	ps := func(p []sspec) string {
+		xs := make([]string, len(p))
+		for i, s := range p {
+			xs[i] = fmt.Sprintf("(%d, %d)", s.name, s.val)
+		}
+		return hx.List(xs)
+	}
+	vs := func(v []vsspec) string {
+		xs := make([]string, len(v))
+		for i, s := range v {
+			xs[i] = fmt.Sprintf("(%d, %d)", s.name, s.val)
+		}
+		return hx.List(xs)
+	}
+	parts := make([]string, len(steps))
+	for i, st := range steps {
+		op := "SOLogin"
+		switch st.op {
+		case 1:
+			op = "SOLost"
+		case 2:
+			op = fmt.Sprintf("SOReload %s %s", ps(st.p), vs(st.v))
+		}
+		pr := make([]string, len(st.prow))
+		for j, r := range st.prow {
+			pr[j] = fmt.Sprintf("(%s, %s)", hx.Z(int64(r[0])), hx.Z(int64(r[1])))
+		}
+		vr := make([]string, len(st.vrow))
+		for j, r := range st.vrow {
+			vr[j] = fmt.Sprintf("(%s, %s, %d)", hx.Z(int64(r[0])), hx.Z(int64(r[1])), r[2])
+		}
+		if !st.live {
+			pr, vr = nil, nil
+		}
+		parts[i] = fmt.Sprintf("(%s, %s, %s, %s)", op, hx.Bool(st.live), hx.List(pr), hx.List(vr))
+	}
+	return fmt.Sprintf("CSvc %s %s %s", ps(p0), vs(v0), hx.List(parts))
 }
 
 // ---- scenarios ----
@@ -633,7 +912,7 @@ func renderSys(steps []sysStep) string {
 }
 
 func runSystem(cfg *hx.RunCfg) error {
-	hx.Quiet()
+	// logging is silenced in shim.go (no rotating file writer on /dev/null: at a date change it would rename the device)
 	// worker iterations every 20 ms; no spontaneous re-sends while a reply is held
 	proxy.VerifSetTiming(20*time.Millisecond, time.Hour, time.Hour)
 	g := hx.NewGen(cfg.Seed)
@@ -709,6 +988,30 @@ func runSystem(cfg *hx.RunCfg) error {
 			report(f)
 		}
 		dist["held-reply-scenarios"]++
+	}
+	{
+		var p0 []sspec
+		var v0 []vsspec
+		var steps []svcStep
+		var finds []sysFinding
+		for _, st := range stables {
+			var err error
+			p0, v0, steps, finds, err = runServicePath(st)
+			if err != nil {
+				return err
+			}
+			if len(finds) == 0 {
+				break
+			}
+			dist["rerun"]++
+		}
+		for _, f := range finds {
+			report(f)
+		}
+		if len(steps) > 0 {
+			cf.Cases = append(cf.Cases, renderSvc(p0, v0, steps))
+		}
+		dist["service-path-scenarios"]++
 	}
 	{
 		var finds []sysFinding
